@@ -137,6 +137,17 @@ impl PairRun {
         } else {
             None
         };
+        // C13: the read-only twin first (same operands), to be mirrored by the mutable variant
+        let twin = if op.is_mut() && prop == "C13" {
+            let w = &mut self.h.w;
+            guarded(|| match selfp {
+                Some(sp) => w.self_pair(op.base(), sa, sp, None),
+                None => w.pair(op.base(), (sa, pa), (sb, pb), None),
+            })
+            .ok()
+        } else {
+            None
+        };
         let obs = {
             let w = &mut self.h.w;
             guarded(|| match selfp {
@@ -318,6 +329,16 @@ impl PairRun {
                         }
                     }
                 }
+            }
+        }
+        // ---- C13: the mutable variant yields the same prefixes (bit for bit), presence and values
+        if let Some(t) = &twin {
+            let a: Vec<(EP, Tag, Option<u64>, Option<u64>)> = t.items.iter().map(|i| (i.prefix, i.tag, i.l, if matches!(base, PairOp::Difference | PairOp::CoveringDifference) { None } else { i.r })).collect();
+            let b: Vec<(EP, Tag, Option<u64>, Option<u64>)> = obs.items.iter().map(|i| (i.prefix, i.tag, i.l, if matches!(base, PairOp::Difference | PairOp::CoveringDifference) { None } else { i.r })).collect();
+            ev.count("mut/mirror_comparisons", 1);
+            if a != b {
+                self.viol(ev, &format!("mut/{}/differs-from-readonly", opn), format!("{} yields {:?}, the read-only {:?} yields {:?}", opn, b, base, a), desc);
+                return false;
             }
         }
         // ---- mutable variants: addresses, writes, shape
